@@ -36,6 +36,11 @@ CHECKS.update({
          'Way.Polygon/Relation.Polygon are evaluated on every listed key x every listed value of any key (plus near-misses, unlisted, empty, no) x area classes, all ordered pairs of rule keys, tag permutations, unrelated tags and the closed/length preconditions, and compared with a reference evaluator over hash maps (no sort, no binary search). Exhaustive over the rule table, so every per-value lookup result is decided.',
          'trusted: the content of the rule table (pinned by key/value counts and a checksum from a second transcription). A rule key with an empty value is run but not asserted (statement and library differ from osmtogeojson there).'),
 })
+CHECKS.update({
+ 'C07': ('fault_enumeration', 'porcupine linearizability check of recorded call histories + counting/endless readers + goroutine-dump monitor + Go race detector',
+         'Every stop position k=0..N+1 of small PBF and XML inputs x stop kind (Close, cancel from the scanning goroutine, cancel from a concurrent goroutine overlapping further Scans) x decoder count is executed and its call history checked for linearizability against a 60-line sequential scanner model; counting readers measure what is consumed after the stop (300-block files) and an endless reader with a logical byte budget turns never-stops-reading into a counted observation; goroutine dumps after Close/cancel; cancellations issued from the reader callback or a timer while the consumer is slow or waiting run under the race detector; histories with an injected I/O error check the error precedence.',
+         'trusted: porcupine v1.3.0, Go race detector, the 25% read-ahead allowance. Interleavings are sampled; a watchdog firing with runnable goroutines is inconclusive.'),
+})
 PENDING = 'check not built yet in this revision of /verif (planned in DESIGN.md section 4); no verdict is claimed'
 
 checks, na = [], []
